@@ -159,6 +159,21 @@ def bounded(check, tier, seed):
     s.done()
 
 
+def derived(check, tier, seed):
+    from bounded.derived import derived_values
+    n = 12000 if tier == "thorough" else 1500
+    s = Suite(check, "C01.derived", f"{n} values at the end of chains of <= 4 public operations (bounded/derived.py: slices, joins, splices, "
+              "re-formatting, repeats, wraps ... of values that were partly rendered on the way): str() displays exactly their cells and "
+              "returns the terminal to its default state", bound="chains <= 4 operations", exhaustive=False)
+    for k, v in enumerate(derived_values(seed, n)):
+        s.case(k, sample=repr(v) if k < 2 else None)
+        d = run_value(v)
+        if d:
+            s.fail("C01.str.derived", dict(value=repr(v), runs=str(v.chunks), chain=k, seed=seed), d)
+    s.done()
+
+
 def run(check, tier, seed):
     deductive(check, tier)
     bounded(check, tier, seed)
+    derived(check, tier, seed)
